@@ -20,11 +20,12 @@ class Case:
     spec_req   request for the executable specification (or None)
     expect     function spec_reply -> expected impl_out (or None: spec reply is compared directly)
     nontrivial bool, kind str (distribution key)"""
-    __slots__ = ("desc", "model_req", "impl_out", "spec_req", "expect", "nontrivial", "kind", "in_domain")
+    __slots__ = ("desc", "model_req", "impl_out", "spec_req", "expect", "nontrivial", "kind", "in_domain", "spec_check")
 
-    def __init__(self, desc, model_req, impl_out, spec_req=None, expect=None, nontrivial=True, kind="", in_domain=True):
+    def __init__(self, desc, model_req, impl_out, spec_req=None, expect=None, nontrivial=True, kind="", in_domain=True, spec_check=None):
         self.desc, self.model_req, self.impl_out = desc, model_req, impl_out
         self.spec_req, self.expect, self.nontrivial, self.kind, self.in_domain = spec_req, expect, nontrivial, kind, in_domain
+        self.spec_check = spec_check     # optional: (impl_out, spec_reply) -> None if fine, else a message
 
 
 def load_known_findings():
@@ -224,19 +225,30 @@ def correspond(mod, ctx, exe, budget):
     model_impl, impl_spec = [], []
     distinct = set()
     seen_nt = 0
+    outcomes = {}
     norm = getattr(mod, "norm_reply", lambda r: r)
     for c in cases:
         m = norm(next(mrep)) if c.model_req is not None else None
         s = norm(next(srep)) if c.spec_req is not None else None
         stats["kinds"][c.kind] = stats["kinds"].get(c.kind, 0) + 1
+        if c.impl_out:
+            ok = {0: "returned", 1: "JSONPathError", 2: "other-exception"}.get(c.impl_out[0], str(c.impl_out[0])) if c.impl_out[0] in (0, 1, 2) and c.model_req and c.model_req[0] in (1, 2, 3) else None
+            if ok:
+                if c.impl_out[0] == 1 and len(c.impl_out) > 1: ok += ":%d" % c.impl_out[1]
+                outcomes[ok] = outcomes.get(ok, 0) + 1
         if c.nontrivial:
             distinct.add(json.dumps(c.desc, sort_keys=True, default=str))
         exp = None
-        if s is not None:
+        why = None
+        if s is not None and c.spec_check is not None:
+            why = c.spec_check(c.impl_out, s)
+        elif s is not None:
             exp = c.expect(s) if c.expect else s
-        rec = {"desc": c.desc, "impl": c.impl_out, "model": m, "spec_expected": exp, "in_domain": c.in_domain}
+        rec = {"desc": c.desc, "impl": c.impl_out, "model": m, "spec_expected": exp if c.spec_check is None else s, "in_domain": c.in_domain}
         if c.model_req is not None and m != c.impl_out:
             model_impl.append(rec)
+        if why is not None and c.in_domain:
+            rec = dict(rec); rec["why"] = why; impl_spec.append(rec)
         if exp is not None and c.in_domain and exp != c.impl_out:
             impl_spec.append(rec)
         if c.nontrivial:
@@ -248,6 +260,7 @@ def correspond(mod, ctx, exe, budget):
     if not stats["samples"] and cases:
         c = cases[0]; stats["samples"].append({"desc": c.desc, "impl": c.impl_out})
     stats["distinct_nontrivial"] = len(distinct)
+    stats["extra"] = {"impl_outcomes (error class codes: 1 syntax 2 type 3 index 4 name 5 lexer 6 recursion)": outcomes}
     stats["model_impl_disagreements"] = len(model_impl)
     stats["impl_spec_disagreements"] = len(impl_spec)
     if hasattr(mod, "post"):
